@@ -22,6 +22,7 @@ EXPLANATION = (
     "strategy with the incumbent score; T5 every result dtproblog() returns carries a score obtained from evaluate() through one of the two searches - "
     "not a literal."
     " Added after seed round 7: T3 also reports a queried literal that the scoring loop skips."
+    " Added after seed round 8: T6 dtproblog() runs the local search exactly for search='local' and the exhaustive search otherwise (None included)."
 )
 TECHNIQUE = "static analysis: decision tables of the search loops (paired-update and flip/undo typestate), enumeration bounds by constant folding, sign-pairing patterns"
 LEVEL_TEXT = EXPLANATION
